@@ -102,7 +102,8 @@ class Prop(c09.Prop):
         'whose first s steps of every variable and of TFLAG/ETFLAG are bit-identical to the full file\'s',
         'cloud/rain files carry no variable count (3 before CAMx 4.3, 5 since): a prefix that the reference decoder '
         'reads, with no byte left over, as a complete file of the other flavour may be presented as exactly that file',
-        'each prefix read runs under a 0.5 s alarm (a normal read takes ~1 ms); a hang is reported as no-termination',
+        'each prefix read runs under a 0.5 s alarm (a normal read takes ~1 ms) and is repeated under a 10 s alarm '
+        'if it misses it; only a read that misses both is reported as no-termination',
     ]
 
     def bounds(self, tier):
@@ -144,7 +145,7 @@ class Prop(c09.Prop):
             with open(p, 'wb') as fh:
                 fh.write(raw[:cut])
             ntrans += 1
-            signal.setitimer(signal.ITIMER_REAL, 0.5)
+            signal.setitimer(signal.ITIMER_REAL, 5.0)
             try:
                 f = cl.open_lu(p, r)
                 data = {k: np.array(np.asarray(f.variables[k][...])) for k in f.variables.keys()}
@@ -155,7 +156,7 @@ class Prop(c09.Prop):
                 signal.setitimer(signal.ITIMER_REAL, self.HORIZON)
                 outcomes['hang'] = outcomes.get('hang', 0) + 1
                 vs.append(viol('no-termination', ('truncated', 'landuse', 'any'), 'prefix of %d/%d bytes: reader did '
-                               'not return within 0.5 s' % (cut, len(raw)), cutclass='any', **scope0))
+                               'not return within 5 s' % (cut, len(raw)), cutclass='any', **scope0))
                 continue
             except Exception:
                 signal.setitimer(signal.ITIMER_REAL, self.HORIZON)
@@ -266,13 +267,24 @@ class Prop(c09.Prop):
             ntrans += 1
             signal.setitimer(signal.ITIMER_REAL, 0.5)
             try:
-                dims, data = self.read_all(fmt, p, r, mode)
+                try:
+                    dims, data = self.read_all(fmt, p, r, mode)
+                except core.Timeout:
+                    # a loaded machine can make a 1 ms read miss the 0.5 s alarm: only a read that also
+                    # misses a 10 s alarm is a hang (once one hang is confirmed in this chunk the short
+                    # alarm alone decides, to keep a hanging reader from costing 10 s per cut)
+                    if outcomes.get('hang'):
+                        raise
+                    with open(p, 'wb') as fh:
+                        fh.write(raw[:cut])
+                    signal.setitimer(signal.ITIMER_REAL, 10.0)
+                    dims, data = self.read_all(fmt, p, r, mode)
                 signal.setitimer(signal.ITIMER_REAL, self.HORIZON)
             except core.Timeout:
                 signal.setitimer(signal.ITIMER_REAL, self.HORIZON)
                 outcomes['hang'] = outcomes.get('hang', 0) + 1
                 vs.append(viol('no-termination', ('truncated', fmt, cls), 'prefix of %d/%d bytes: reader did not '
-                               'return within 0.5 s' % (cut, len(raw)), cutclass=cls, **scope0))
+                               'return within 10 s' % (cut, len(raw)), cutclass=cls, **scope0))
                 continue
             except Exception as e:
                 signal.setitimer(signal.ITIMER_REAL, self.HORIZON)
